@@ -11,17 +11,12 @@ C08 line protocol (all numbers decimal int64):
   rf <window> <count> <a1> ...   recordFault(window) once per a_k on a PID whose counter starts at
                                  <count>; before call k lastFaultAtNano is set to (clock - a_k), or to 0
                                  for `z`, or to -5 for `neg`                            -> counts, then `fresh`
-  rfsrc <normalised source>      the text of recordFault as extracted from pid.go       -> src
 -/
 namespace GoaktVerif.Driver.C08
 open GoaktVerif.Driver GoaktVerif.Model.C08 GoaktVerif.Spec.C08
 
 /-- the clock reading the model uses for `rf` cases (only differences matter) -/
 def T0 : Int := 1000000000000000000
-
-/-- normalised body of recordFault this model was written against -/
-def recordFaultSrc : String :=
-  "now := time.Now().UnixNano() if last := pid.lastFaultAtNano.Load(); window > 0 && last > 0 && now-last > window.Nanoseconds() { pid.consecutiveFaults.Store(0) } pid.lastFaultAtNano.Store(now) return pid.consecutiveFaults.Inc()"
 
 def lastOf (a : String) : Option Int :=
   if a = "z" then some 0 else if a = "neg" then some (-5) else (a.toInt?).map (T0 - ·)
@@ -60,7 +55,6 @@ def model (line : String) : String :=
       | some outs => joinInts outs ++ " fresh"
       | none => "bad-case"
     | _, _ => "bad-case"
-  | "rfsrc" :: rest => if " ".intercalate rest = recordFaultSrc then "src" else "src-changed"
   | _ => "bad-case"
 
 /-- spec replay of an rf case on the implementation's counts -/
@@ -122,7 +116,6 @@ def judge (line : String) : String :=
         else if rfJudge w ages c outs then "ok" else "bad fault counter does not follow the window rule"
       | none => "bad unparsable: " ++ o
     | _, _ => "bad-case"
-  | "rfsrc" :: _ => "ok"
   | _ => "bad-case"
 
 def run (args : List String) : IO UInt32 := runWith args model judge
